@@ -22,6 +22,8 @@ inductive Op
   | copyAssign (dst src : Nat)
   | moveAssign (dst src : Nat)
   | write (i k v : Nat)
+  | convert (dst src : Nat)      -- layout conversion: construct `dst` (another storage order) from `src`, cell by cell
+  | dumpLoad (dst src : Nat)     -- dump `src` to a stream; load it into `dst` (constructed, or move-assigned from the loaded temporary)
 
 def upd {α} (f : Nat → Option α) (i : Nat) (v : Option α) : Nat → Option α := fun j => if j = i then v else f j
 def zeros (n : Nat) : List Nat := List.replicate n 0
@@ -31,6 +33,11 @@ def srcBuf (s : CState) (o : Own) : List Nat :=
   match o.ptr with
   | some a => (s.heap a).getD (zeros o.size)
   | none => zeros o.size
+
+/-- an object whose cells may be read one by one (conversion, dump): it owns a buffer, or it has no cells at all.
+    Reading the cells of a moved-from object of non-zero size dereferences a null pointer; such programs are
+    outside the property (the harness never runs them) and both machines treat them as no-ops. -/
+def Own.readable (o : Own) : Bool := o.ptr.isSome || o.size == 0
 
 /-- `unique_ptr` destructor / reset -/
 def free (s : CState) (p : Option Addr) : CState :=
@@ -71,6 +78,26 @@ def cstep (s : CState) : Op → CState
       | some buf => if k < buf.length then { s with heap := upd s.heap a (some (buf.set k v)) } else s
       | none => { s with bad := true }         -- use after free
     | _ => s
+  -- Buffers are kept in coordinate (row-major) order, so a conversion is a cell-by-cell copy into a fresh buffer;
+  -- that the storage orders are bijections onto their buffers is C01 / C05's business, not this machine's.
+  | .convert dst src => match s.slots dst, s.slots src with
+    | none, some o =>
+      if o.readable then
+        { s with heap := upd s.heap s.next (some (srcBuf s o)), next := s.next + 1,
+                 slots := upd s.slots dst (some ⟨o.size, some s.next⟩) }
+      else s
+    | _, _ => s
+  | .dumpLoad dst src => match s.slots src with
+    | some o =>
+      if o.readable then
+        match s.slots dst with
+        | none => { s with heap := upd s.heap s.next (some (srcBuf s o)), next := s.next + 1,
+                           slots := upd s.slots dst (some ⟨o.size, some s.next⟩) }
+        | some d =>      -- the loaded temporary owns a fresh buffer; move assignment releases `dst`'s and adopts it
+          let s1 : CState := { s with heap := upd s.heap s.next (some (srcBuf s o)), next := s.next + 1 }
+          { free s1 d.ptr with slots := upd s.slots dst (some ⟨o.size, some s.next⟩) }
+      else s
+    | none => s
 
 def cinit : CState := ⟨fun _ => none, 0, fun _ => none, false⟩
 
@@ -103,6 +130,12 @@ def astep (s : AState) : Op → AState
     | _, _ => s
   | .write i k v => match s i with
     | some (.live c) => if k < c.length then upd s i (some (.live (c.set k v))) else s
+    | _ => s
+  | .convert dst src => match s dst, s src with
+    | none, some (.live c) => upd s dst (some (.live c))
+    | _, _ => s
+  | .dumpLoad dst src => match s src with
+    | some (.live c) => upd s dst (some (.live c))
     | _ => s
 
 /-- abstraction of a concrete state -/
